@@ -223,13 +223,22 @@ def units(tier):
         it.name = it.name.replace('c09_content_', 'c07_copy_and_verify_')
         it.prop = PROP
         cinsts.append(it)
-    return [Unit('C07_guest_bytes', insts), Unit('C07_copy_and_verify', cinsts, extra_cpp=C09.EXTRA_CPP)]
+    # "conversion to tainted ... struct-field type": the whole-struct load and store (macro-expanded bodies, contracts of C08:
+    # every field of the destination equals the guest decoding / encoding of the source field, the store assigns only the guest image)
+    from . import C08
+    sinsts = []
+    for it in (C08.load_inst('VOuter', tier), C08.store_inst('VOuter', tier)):
+        it.name = it.name.replace('c08_', 'c07_struct_')
+        it.prop = PROP
+        sinsts.append(it)
+    return [Unit('C07_guest_bytes', insts), Unit('C07_copy_and_verify', cinsts, extra_cpp=C09.EXTRA_CPP),
+            Unit('C07_struct_fields', sinsts, includes=('rlbox.hpp', 'vsbx.hpp', 'vstructs.hpp'))]
 
 
 ASSUMPTIONS = [
     'the cell is stable for the duration of one call (adversarial rewriting between reads is C09)',
     'pointer-typed cells: value correctness is C04; here only footprint and frame',
-    'struct fields are decided under C08',
+    'struct fields: the load/store instances of C08 for the struct VOuter are shared; the rest of the family is decided under C08',
 ]
 TRUSTED = ['guest ABI table of vsbx (props/common.py GUEST_SIZE) as the independent footprint specification',
            'object view: memcpy is CBMC\'s byte-copy model called with the length RLBox passes']
